@@ -29,9 +29,11 @@ KINDS = {
     'n404': ['canon', 'n404', 'text'],
     'bighdr': ['biglf', 'cl', 'text'],        # >4 KiB non-canonical header block
     'embedded': ['canon', 'cl', 'mime'],      # body that looks like a header block
+    'bigbody': ['canon', 'chunked_ext', 'big'],     # body longer than one 4096-byte read
+    'biggz': ['lf', 'cl', 'biggz'],
 }
 ORDER = ['canon', 'lfonly', 'chunked_tr', 'empty', 'binary', 'repeat', 'nospace', 'gzip',
-         'junk', 'bighdr', 'n404', 'embedded']
+         'junk', 'bighdr', 'n404', 'embedded', 'bigbody', 'biggz']
 BITS = ['compress', 'digests', 'cdx', 'rollover', 'preexisting', 'log', 'extra', 'dedup']
 
 SAME_URL = 'http://h.test/same'
